@@ -26,9 +26,11 @@ func init() {
 			"then twice by 2..32 goroutines pulling from a shared queue, inputs rebuilt inside the goroutines; every concurrent result must equal the sequential one byte for byte. " +
 			"(B) per case 2..32 clients, each owning one file ID and a script of 3..10 requests to it (create text|JSON valid|invalid, get, contents LF|CRLF, validate GET|POST, build, add/list/get/delete batch, flatten (only while no batch was added/deleted and no mutated body was sent: Flatten breaks ties between equal batch numbers by map order), segment by ID, delete; never the list-all nor the balance endpoint), " +
 			"run sequentially on one fresh in-process handler and concurrently (one goroutine per client) on another; status and canonical body (\"id\"-like keys removed, Flatten/Segment creation stamps masked) of every request must agree. " +
+			"(C) soak: 15 small generator files that between them hold every record type are parsed and written back in tight loops by 8 goroutines on 2 processors (GOMAXPROCS lowered for the phase) for 0.6 s (quick) / 6 s (thorough), each result compared with the sequential one. " +
 			"distinct = (job kinds and seeds) / (scripts); non-trivial = at least two jobs or clients really ran in parallel. The oracle shares nothing between goroutines but the work queue and per-index result slots.",
 		Run: func(t *T) {
 			library(t)
+			soak(t)
 			httpPart(t)
 		},
 	})
@@ -126,10 +128,11 @@ const (
 	jCreate
 	jCorpus
 	jTooLong
+	jCustomCodes
 	nJobKinds
 )
 
-var jobName = [nJobKinds]string{"parse-text", "parse-json", "validate", "write", "marshal", "flatten", "segment", "merge", "create", "parse-corpus", "parse-too-long"}
+var jobName = [nJobKinds]string{"parse-text", "parse-json", "validate", "write", "marshal", "flatten", "segment", "merge", "create", "parse-corpus", "parse-too-long", "custom-return-codes"}
 
 var (
 	corpusOnce  sync.Once
@@ -268,6 +271,49 @@ func runJob(kind int, seed uint64) (res string) {
 		g, err := rd.Read()
 		js, _ := json.Marshal(&g)
 		return errText(err) + "\n" + stripJSON(js, false)
+	}
+	if kind == jCustomCodes {
+		// return files whose return code is not in the Nacha table: read under CustomReturnCodes by some jobs, under the
+		// default rules by others.  What one job is told to admit must not change what another job admits.
+		f, err := gen.File(r, gen.Opts{SECs: []string{ach.PPD, ach.CCD, ach.WEB}, Categories: []string{ach.CategoryReturn}, MinBatches: 1, MaxBatches: 2, MaxEntries: 3})
+		if err != nil {
+			return "generator: " + err.Error()
+		}
+		code := gen.Pick(r, []string{"R93", "R94", "R57", "R99"})
+		for _, b := range f.Batches {
+			for _, e := range b.GetEntries() {
+				if e.Addenda99 != nil {
+					e.Addenda99.ReturnCode = code
+				}
+			}
+		}
+		var buf bytes.Buffer
+		w := ach.NewWriter(&buf)
+		w.BypassValidation = true
+		if err := w.Write(f); err != nil {
+			return "write: " + err.Error()
+		}
+		rd := ach.NewReader(bytes.NewReader(buf.Bytes()))
+		how := "default"
+		if r.Bool() {
+			how = "custom"
+			rd.SetValidation(&ach.ValidateOpts{CustomReturnCodes: true})
+		}
+		g, err := rd.Read()
+		desc := ""
+		for _, b := range g.Batches {
+			for _, e := range b.GetEntries() {
+				if e.Addenda99 != nil {
+					if rc := e.Addenda99.ReturnCodeField(); rc != nil {
+						desc += rc.Reason + "|"
+					} else {
+						desc += "<no description>|"
+					}
+				}
+			}
+		}
+		js, _ := json.Marshal(&g)
+		return how + " " + code + " " + errText(err) + "\n" + desc + "\n" + stripJSON(js, false) + "\n" + errText(f.Validate())
 	}
 	if kind == jCorpus {
 		cs := corpus()
@@ -500,6 +546,14 @@ func library(t *T) {
 		stable := make([]bool, nj)
 		for i := range jobs {
 			stable[i] = seq1[i] == seq2[i]
+			if !stable[i] {
+				// a job is a function of its seed alone: a second sequential run that differs from the first means the
+				// first run (of this or of another job) left something behind that the second one saw
+				t.Fail("C19/library/"+jobName[jobs[i].kind]+"/sequential-rerun-differs",
+					"the same job run a second time, sequentially, after the other jobs of the case gives another result: work on one file depends on which files were processed before",
+					map[string]any{"job": jobName[jobs[i].kind], "job_seed": jobs[i].seed, "case_jobs": key.String()},
+					firstDiff(seq2[i], seq1[i]), "byte-identical to the first run")
+			}
 		}
 		peakMax := 0
 		for rep := 0; rep < 2; rep++ {
